@@ -52,6 +52,9 @@ def symbol_refs(backend, outdir):
             t = open(p).read()
             for blk in re.findall(r'interface \w+: Library \{(.*?)\n\}', t, re.S):
                 syms |= set(re.findall(r'\bfun ([A-Za-z_]\w*)\(', blk))
+            # ... and what the class bodies CALL through the JNA proxy (`lib.X(`): a call of something the interface does not declare
+            # shows up as an extra referenced symbol
+            syms |= set(re.findall(r'\blib\.([A-Za-z_]\w*)\(', t))
     else:
         raise ValueError(backend)
     return set(s for s in syms if _keep(s))
